@@ -1062,6 +1062,7 @@ impl<'a, T: 'a + IO> Interpreter<'a, T> {
 
     fn interpret_func_call_expr(&mut self, f: parser::FunctionCall) -> Result<DataType, PakhiErr> {
         let env_count_before_fn_call = self.scopes.len();
+        let loop_count_before_fn_call = self.loops.len();
 
         match *f.expr.clone() {
             parser::Expr::Primary(parser::Primary::Var(func_token), _, _) => {
@@ -1136,6 +1137,8 @@ impl<'a, T: 'a + IO> Interpreter<'a, T> {
         if let parser::Stmt::Return(expr, _, _) = self.statements[self.current].clone() {
             let return_val = self.interpret_expr(expr);
             self.current = self.return_addrs.pop().unwrap();
+            // return can happen inside loop, loops entered by this call are finished
+            self.loops.truncate(loop_count_before_fn_call);
 
             let env_count_after_fn_call = self.scopes.len();
             let envs_created_inside_fn = env_count_after_fn_call - env_count_before_fn_call;
